@@ -545,3 +545,323 @@ Proof.
 Qed.
 
 End IpTable.
+
+(* ---------------------------------------------------------------- line-oriented files *)
+
+Lemma scan_segments_ok segs : forall toks,
+  scan_segments segs = (toks, false) -> toks = map drop_cr (strip_last_empty segs).
+Proof.
+  induction segs as [|seg rest IH]; intros toks H; cbn [scan_segments strip_last_empty] in *.
+  - injection H as <-. reflexivity.
+  - destruct rest as [|seg' rest'].
+    + destruct (is_nil seg); [injection H as <-; reflexivity|].
+      destruct (max_token <=? zlen seg); [discriminate|]. injection H as <-. reflexivity.
+    + destruct (max_token <=? zlen seg); [discriminate|].
+      destruct (scan_segments (seg' :: rest')) as [ts e] eqn:E. injection H as <- ->.
+      cbn [map]. f_equal. apply IH. reflexivity.
+Qed.
+
+Lemma scan_segments_short segs :
+  Forall (fun seg => zlen seg < max_token) segs ->
+  scan_segments segs = (map drop_cr (strip_last_empty segs), false).
+Proof.
+  induction segs as [|seg rest IH]; intros H; [reflexivity|]. inversion H; subst.
+  cbn [scan_segments strip_last_empty]. destruct rest as [|seg' rest'].
+  - destruct (is_nil seg); [reflexivity|].
+    replace (max_token <=? zlen seg) with false by (symmetry; apply Z.leb_gt; assumption). reflexivity.
+  - replace (max_token <=? zlen seg) with false by (symmetry; apply Z.leb_gt; assumption).
+    rewrite (IH H3). reflexivity.
+Qed.
+
+Lemma map_lines_spec {A} (f : bytes -> option A) c t lines : forall l,
+  map_lines f c t lines = Some l <->
+  Forall2 (fun ln r => f ln = Some r) (filter (fun l => negb (is_nil l)) (map (clean_line c t) lines)) l.
+Proof.
+  induction lines as [|ln lines IH]; intros l; cbn [map_lines map filter].
+  - split; intros H; [injection H as <-; constructor|inversion H; reflexivity].
+  - destruct (is_nil (clean_line c t ln)); cbn [negb]; [apply IH|].
+    destruct (f (clean_line c t ln)) as [y|] eqn:E.
+    + destruct (map_lines f c t lines) as [r|] eqn:E'.
+      * split; intros H.
+        -- injection H as <-. constructor; [exact E|apply IH; reflexivity].
+        -- inversion H; subst. f_equal. f_equal; [congruence|]. apply IH in H4. congruence.
+      * split; intros H; [discriminate|]. inversion H; subst. apply IH in H4. discriminate.
+    + split; intros H; [discriminate|]. inversion H; subst. congruence.
+Qed.
+
+(* with scanner.Err() reported, an accepted file accounts for every content line of the file, in order:
+   nothing after an over-long line is silently dropped *)
+Lemma parse_lines_exact {A} (f : bytes -> option A) c t data l :
+  parse_lines_gen true f c t data = Some l ->
+  Forall2 (fun ln r => f ln = Some r) (content_lines c t data) l.
+Proof.
+  unfold parse_lines_gen, scan_lines, content_lines, all_lines.
+  destruct (scan_segments (split_on 10 data)) as [toks toolong] eqn:E.
+  destruct (map_lines f c t toks) as [l'|] eqn:M; [|discriminate]. cbn [andb].
+  destruct toolong; [discriminate|]. intros H. injection H as <-.
+  apply scan_segments_ok in E. subst toks. apply map_lines_spec. exact M.
+Qed.
+
+Lemma parse_lines_complete {A} (f : bytes -> option A) c t data l :
+  Forall (fun seg => zlen seg < max_token) (split_on 10 data) ->
+  Forall2 (fun ln r => f ln = Some r) (content_lines c t data) l ->
+  parse_lines_gen true f c t data = Some l.
+Proof.
+  intros Hs H. unfold parse_lines_gen, scan_lines. rewrite (scan_segments_short _ Hs).
+  unfold content_lines, all_lines in H. apply map_lines_spec in H. rewrite H. reflexivity.
+Qed.
+
+Lemma parse_ports_file_exact data l :
+  parse_ports_file data = Some l ->
+  Forall2 (fun ln r => denotes_port_range ln (fst r) (snd r)) (content_lines 35 32 data) l.
+Proof.
+  intros H. apply parse_lines_exact in H. eapply Forall2_impl; [|exact H].
+  intros ln [a b] Hp. apply parse_port_range_exact. exact Hp.
+Qed.
+
+Lemma Forall2_len {A B} (P : A -> B -> Prop) l r : Forall2 P l r -> List.length l = List.length r.
+Proof. intros H. induction H; cbn; congruence. Qed.
+
+(* the code before the fix drops the rest of a file after a line of 64 KiB without any error *)
+Definition long_file : bytes := str "80" ++ [10; 35] ++ repeat 99 (Z.to_nat 65536) ++ [10] ++ str "443" ++ [10].
+Lemma parse_ports_file_v0_refuted :
+  exists data l, parse_ports_file_v0 data = Some l /\
+                 ~ Forall2 (fun ln r => denotes_port_range ln (fst r) (snd r)) (content_lines 35 32 data) l.
+Proof.
+  exists long_file, [(80, 80)]. split; [vm_compute; reflexivity|].
+  intros H. apply Forall2_len in H. revert H. vm_compute. discriminate.
+Qed.
+
+Lemma parse_exclude_exact f data nets :
+  parse_exclude f data = Some nets ->
+  Forall2 (fun ln n => f ln = Some n) (content_lines 35 32 data) nets.
+Proof. apply parse_lines_exact. Qed.
+
+Lemma parse_exclude_v0_refuted :
+  exists f data nets, parse_exclude_v0 f data = Some nets /\
+                      ~ Forall2 (fun ln n => f ln = Some n) (content_lines 35 32 data) nets.
+Proof.
+  exists (fun _ => Some (0, 0)), long_file, [(0, 0)]. split; [vm_compute; reflexivity|].
+  intros H. apply Forall2_len in H. revert H. vm_compute. discriminate.
+Qed.
+
+(* ---------------------------------------------------------------- round trip of a ports file *)
+
+Lemma render_dec_f_len fuel : forall n acc, (List.length (render_dec_f fuel n acc) <= fuel + List.length acc)%nat.
+Proof.
+  induction fuel as [|f IH]; intros n acc; cbn [render_dec_f]; [lia|].
+  destruct (n <? 10); [cbn [List.length]; lia|]. specialize (IH (n / 10) ((48 + n mod 10) :: acc)).
+  cbn [List.length] in IH. lia.
+Qed.
+
+Lemma render_dec_len n : 0 <= n <= 65535 -> zlen (render_dec n) <= 16.
+Proof.
+  intros Hn. unfold zlen, render_dec. pose proof (render_dec_f_len (S (Z.to_nat (Z.log2 n))) n []) as H.
+  cbn [List.length] in H. assert (Z.log2 n <= 15).
+  { change 15 with (Z.log2 65535). apply Z.log2_le_mono. lia. }
+  pose proof (Z.log2_nonneg n). lia.
+Qed.
+
+Lemma render_range_chars r c : port_pair_ok r -> is_digit c = false -> c <> 45 -> mem c (render_range r) = false.
+Proof.
+  intros [Ha Hb] Hc Hn. unfold render_range. rewrite !mem_app. cbn [mem].
+  destruct (render_dec_spec (fst r) ltac:(lia)) as [_ [Da _]]. destruct (render_dec_spec (snd r) ltac:(lia)) as [_ [Db _]].
+  rewrite (all_digits_no c _ Hc Da), (all_digits_no c _ Hc Db).
+  replace (45 =? c) with false by (symmetry; apply Z.eqb_neq; lia). reflexivity.
+Qed.
+
+Lemma render_range_len r : port_pair_ok r -> zlen (render_range r) < max_token.
+Proof.
+  intros [Ha Hb]. unfold render_range, zlen. rewrite !app_length. cbn [List.length].
+  pose proof (render_dec_len (fst r) ltac:(lia)). pose proof (render_dec_len (snd r) ltac:(lia)).
+  unfold zlen in *. unfold max_token. lia.
+Qed.
+
+Lemma render_range_nonempty r : port_pair_ok r -> render_range r <> [].
+Proof.
+  intros [Ha _]. unfold render_range. destruct (render_dec_spec (fst r) ltac:(lia)) as [N _].
+  destruct (render_dec (fst r)); [congruence|discriminate].
+Qed.
+
+Lemma split_render_file l : Forall port_pair_ok l ->
+  split_on 10 (render_ports_file l) = map render_range l ++ [[]].
+Proof.
+  induction 1 as [|r l Hr Hl IH]; [reflexivity|]. unfold render_ports_file in *. cbn [flat_map map app].
+  rewrite <- app_assoc. cbn [app]. rewrite split_on_app_sep by (apply render_range_chars; [assumption|reflexivity|lia]).
+  rewrite IH. reflexivity.
+Qed.
+
+Lemma strip_last_empty_snoc L : Forall (fun s : bytes => s <> []) L -> strip_last_empty (L ++ [[]]) = L.
+Proof.
+  induction 1 as [|s L Hs HL IH]; [reflexivity|]. cbn [app strip_last_empty].
+  destruct (L ++ [[]]) eqn:E; [destruct L; discriminate|]. rewrite IH. reflexivity.
+Qed.
+
+Lemma drop_cr_id s : mem 13 s = false -> drop_cr s = s.
+Proof.
+  induction s as [|c t IH]; intros H; [reflexivity|]. cbn [mem] in H. apply orb_false_iff in H. destruct H as [H1 H2].
+  cbn [drop_cr]. destruct t; [rewrite H1; reflexivity|]. rewrite (IH H2). reflexivity.
+Qed.
+
+Lemma cut_at_id c s : mem c s = false -> cut_at c s = s.
+Proof.
+  induction s as [|x t IH]; intros H; [reflexivity|]. cbn [mem] in H. apply orb_false_iff in H. destruct H as [H1 H2].
+  cbn [cut_at]. rewrite H1, (IH H2). reflexivity.
+Qed.
+
+Lemma drop_leading_id c s : mem c s = false -> drop_leading c s = s.
+Proof. destruct s as [|x t]; intros H; [reflexivity|]. cbn [mem] in H. apply orb_false_iff in H. cbn [drop_leading]. destruct H as [-> _]. reflexivity. Qed.
+
+Lemma mem_rev c s : mem c (rev s) = mem c s.
+Proof.
+  induction s as [|x t IH]; [reflexivity|]. cbn [rev]. rewrite mem_app, IH. cbn [mem]. rewrite orb_false_r. apply orb_comm.
+Qed.
+
+Lemma trim_id c s : mem c s = false -> trim c s = s.
+Proof.
+  intros H. unfold trim, frev. rewrite (drop_leading_id c s H), !rev_append_rev, !app_nil_r.
+  rewrite drop_leading_id by (rewrite mem_rev; exact H). apply rev_involutive.
+Qed.
+
+Lemma clean_render r : port_pair_ok r -> clean_line 35 32 (render_range r) = render_range r.
+Proof.
+  intros H. unfold clean_line. rewrite cut_at_id by (apply render_range_chars; [assumption|reflexivity|lia]).
+  apply trim_id. apply render_range_chars; [assumption|reflexivity|lia].
+Qed.
+
+(* every list of port ranges written one per line parses back to exactly that list *)
+Lemma parse_ports_file_roundtrip l : Forall port_pair_ok l -> parse_ports_file (render_ports_file l) = Some l.
+Proof.
+  intros H. unfold parse_ports_file, parse_ports_file_gen.
+  change ports_file_comment with 35. change ports_file_trim with 32. apply parse_lines_complete.
+  - rewrite (split_render_file l H). apply Forall_app. split; [|repeat constructor; unfold max_token; cbn; lia].
+    rewrite Forall_map. eapply Forall_impl; [|exact H]. intros r Hr. apply render_range_len. exact Hr.
+  - unfold content_lines, all_lines. rewrite (split_render_file l H).
+    rewrite strip_last_empty_snoc by (rewrite Forall_map; eapply Forall_impl; [|exact H]; intros r Hr; apply render_range_nonempty; exact Hr).
+    induction H as [|r l Hr Hl IH]; [constructor|]. cbn [map].
+    rewrite drop_cr_id by (apply render_range_chars; [assumption|reflexivity|lia]).
+    rewrite (clean_render r Hr). cbn [filter].
+    destruct (render_range r) eqn:E; [exfalso; apply (render_range_nonempty r Hr E)|]. cbn [is_nil negb].
+    constructor; [|exact IH]. rewrite <- E. destruct r as [ra rb]. apply parse_port_range_exact.
+    destruct Hr as [Ha Hb]. apply denotes_render_range; assumption.
+Qed.
+
+(* ---------------------------------------------------------------- rate limit *)
+
+(* a count: decimal digits with an optional sign; a minus sign is only accepted in front of zero *)
+Definition denotes_count (p : bytes) (n : Z) : Prop :=
+  exists sign ds, p = sign ++ ds /\ is_number ds = true /\ n = dec_val ds /\ n < 2 ^ 31 /\
+                  (sign = [] \/ sign = [43] \/ (sign = [45] /\ n = 0)).
+
+Lemma digits_val_10_iff r v : r <> [] ->
+  (digits_val 10 0 r = Some v <-> is_number r = true /\ v = dec_val r /\ v < two64).
+Proof.
+  intros Hne. rewrite is_number_spec. split.
+  - intros H. destruct (digits_val_10_some r 0 v H) as [H1 H2]. rewrite Z.mul_0_l, Z.add_0_l in H2.
+    split; [tauto|]. split; [exact H2|].
+    (* the loop never returns a value outside uint64 *)
+    clear H1 H2. revert H. generalize 0 at 1. intros acc. revert acc v.
+    induction r as [|c t IH]; [congruence|]. intros acc v. cbn [digits_val].
+    destruct (digit_val c) as [d|]; [|discriminate]. destruct (d <? 10); [|discriminate].
+    destruct (two64 <=? acc * 10 + d) eqn:E; [discriminate|]. apply Z.leb_gt in E.
+    destruct t as [|c' t']; [cbn [digits_val]; intros H; injection H as <-; exact E|].
+    apply IH. discriminate.
+  - intros [[_ Hd] [-> Hv]]. pose proof (digits_val_10_complete r 0 Hd ltac:(lia)) as Hc.
+    rewrite Z.mul_0_l, Z.add_0_l in Hc. apply Hc. exact Hv.
+Qed.
+
+Lemma number_head s : is_number s = true -> exists c t, s = c :: t /\ is_digit c = true.
+Proof.
+  intros H. apply is_number_spec in H. destruct H as [Hne Hd]. destruct s as [|c t]; [congruence|].
+  exists c, t. split; [reflexivity|]. cbn [all_digits forallb] in Hd. apply andb_true_iff in Hd. tauto.
+Qed.
+
+Lemma parse_int_rate p n :
+  (parse_int rate_base rate_bits p = Some n /\ 0 <= n) <-> denotes_count p n.
+Proof.
+  unfold parse_int, denotes_count. change rate_base with 10. change (2 ^ (rate_bits - 1)) with (2 ^ 31). split.
+  - intros [H Hn]. destruct p as [|c t]; [discriminate|].
+    destruct (c =? 43) eqn:E1; [|destruct (c =? 45) eqn:E2].
+    + apply Z.eqb_eq in E1. subst c. destruct t as [|c' t']; [discriminate|]. remember (c' :: t') as r eqn:Er.
+      destruct (digits_val 10 0 r) as [v|] eqn:E; [|discriminate].
+      apply digits_val_10_iff in E; [|rewrite Er; discriminate]. destruct E as [N [-> _]].
+      destruct (2 ^ 31 <=? dec_val r) eqn:F; [discriminate|]. injection H as <-. apply Z.leb_gt in F.
+      exists [43], r. repeat split; auto.
+    + apply Z.eqb_eq in E2. subst c. destruct t as [|c' t']; [discriminate|]. remember (c' :: t') as r eqn:Er.
+      destruct (digits_val 10 0 r) as [v|] eqn:E; [|discriminate].
+      apply digits_val_10_iff in E; [|rewrite Er; discriminate]. destruct E as [N [-> _]].
+      destruct (2 ^ 31 <? dec_val r) eqn:F; [discriminate|]. injection H as <-.
+      pose proof (dec_val_nonneg r (proj2 (proj1 (is_number_spec r) N))).
+      exists [45], r. assert (dec_val r = 0) by lia. repeat split; auto; try lia. right. right. split; [reflexivity|lia].
+    + remember (c :: t) as r eqn:Er. destruct (digits_val 10 0 r) as [v|] eqn:E; [|discriminate].
+      apply digits_val_10_iff in E; [|rewrite Er; discriminate]. destruct E as [N [-> _]].
+      destruct (2 ^ 31 <=? dec_val r) eqn:F; [discriminate|]. injection H as <-. apply Z.leb_gt in F.
+      exists [], r. repeat split; auto.
+  - intros [sign [ds [-> [N [-> [Hlt Hs]]]]]].
+    pose proof (dec_val_nonneg ds (proj2 (proj1 (is_number_spec ds) N))) as Hnn. split; [|exact Hnn].
+    assert (Hdv : digits_val 10 0 ds = Some (dec_val ds)).
+    { apply digits_val_10_iff; [apply is_number_spec in N; tauto|]. repeat split; auto. rewrite two64_val. lia. }
+    destruct (number_head ds N) as [c [t [Eds Hc]]]. apply is_digit_spec in Hc. subst ds.
+    destruct Hs as [->|[->|[-> Hz]]]; cbn [app].
+    + replace (c =? 43) with false by (symmetry; apply Z.eqb_neq; lia).
+      replace (c =? 45) with false by (symmetry; apply Z.eqb_neq; lia). cbv beta iota. rewrite Hdv.
+      replace (2 ^ 31 <=? dec_val (c :: t)) with false by (symmetry; apply Z.leb_gt; lia). reflexivity.
+    + rewrite Z.eqb_refl. cbv beta iota. rewrite Hdv.
+      replace (2 ^ 31 <=? dec_val (c :: t)) with false by (symmetry; apply Z.leb_gt; lia). reflexivity.
+    + replace (45 =? 43) with false by reflexivity. rewrite Z.eqb_refl. cbv beta iota. rewrite Hdv.
+      replace (2 ^ 31 <? dec_val (c :: t)) with false by (symmetry; apply Z.ltb_ge; lia). rewrite Hz. reflexivity.
+Qed.
+
+(* the window text handed to time.ParseDuration: a window that starts with a unit has an implicit 1 *)
+Definition rate_window (w : bytes) : bytes :=
+  match w with
+  | c :: _ => if negb (is_digit c) && negb (c =? 46) then 49 :: w else w
+  | [] => w
+  end.
+
+(* what a rate string denotes: a count, alone (per second) or followed by one slash and a window; the
+   window is what Go's duration syntax gives for the text written *)
+Definition denotes_rate (s : bytes) (n d : Z) : Prop :=
+  exists cnt, denotes_count cnt n /\
+    ((s = cnt /\ d = one_second) \/
+     (exists w, s = cnt ++ 47 :: w /\ mem 47 w = false /\ parse_duration (rate_window w) = Some d /\ 0 <= d)).
+
+Lemma denotes_count_no_slash p n : denotes_count p n -> mem 47 p = false.
+Proof.
+  intros [sign [ds [-> [N [_ [_ Hs]]]]]]. rewrite mem_app, (is_number_no ds 47) by (reflexivity || assumption).
+  destruct Hs as [->|[->|[-> _]]]; reflexivity.
+Qed.
+
+Lemma parse_rate_limit_exact s n d : parse_rate_limit s = Some (n, d) <-> denotes_rate s n d.
+Proof.
+  unfold parse_rate_limit, parse_rate_limit_gen, denotes_rate. change rate_sep with 47. cbn [andb]. split.
+  - intros H. pose proof (split_on_join 47 s) as Hj. pose proof (split_on_pieces 47 s) as Hp.
+    destruct (2 <? zlen (split_on 47 s)) eqn:L; [discriminate|]. apply Z.ltb_ge in L. unfold zlen in L.
+    destruct (split_on 47 s) as [|p0 rest]; [discriminate|].
+    destruct (parse_int rate_base rate_bits p0) as [rate|] eqn:E; [|discriminate].
+    destruct (rate <? 0) eqn:F; [discriminate|]. apply Z.ltb_ge in F.
+    assert (C : denotes_count p0 rate) by (apply parse_int_rate; tauto).
+    destruct rest as [|w rest'].
+    + injection H as <- <-. exists p0. split; [exact C|]. left. cbn in Hj. auto.
+    + destruct rest' as [|x y]; [|cbn [List.length] in L; lia].
+      fold (rate_window w) in H. destruct (parse_duration (rate_window w)) as [d'|] eqn:D; [|discriminate].
+      destruct (d' <? 0) eqn:G; [discriminate|]. apply Z.ltb_ge in G. injection H as <- <-.
+      exists p0. split; [exact C|]. right. exists w. cbn in Hj. inversion Hp; subst. inversion H2; subst. auto.
+  - intros [cnt [C [[-> ->]|[w [-> [Hw [D Hd]]]]]]]; pose proof (denotes_count_no_slash _ _ C) as Hc;
+      pose proof (proj2 (parse_int_rate cnt n) C) as [P Pn].
+    + rewrite split_on_no_sep by exact Hc. cbn [zlen List.length Z.of_nat].
+      cbn [Z.ltb Z.compare Pos.compare Pos.compare_cont Pos.of_succ_nat Pos.succ]. rewrite P.
+      replace (n <? 0) with false by (symmetry; apply Z.ltb_ge; exact Pn). reflexivity.
+    + rewrite split_on_app_sep by exact Hc. rewrite split_on_no_sep by exact Hw. cbn [zlen List.length Z.of_nat].
+      cbn [Z.ltb Z.compare Pos.compare Pos.compare_cont Pos.of_succ_nat Pos.succ]. rewrite P.
+      replace (n <? 0) with false by (symmetry; apply Z.ltb_ge; exact Pn).
+      fold (rate_window w). rewrite D. replace (d <? 0) with false by (symmetry; apply Z.ltb_ge; exact Hd). reflexivity.
+Qed.
+
+(* the code before the fix reads the window .5s as 1.5s: the accepted window is not the duration written *)
+Lemma parse_rate_limit_v0_refuted :
+  exists s n d, parse_rate_limit_v0 s = Some (n, d) /\ ~ denotes_rate s n d.
+Proof.
+  exists (str "5/.5s"), 5, 1500000000. split; [vm_compute; reflexivity|].
+  intros H. apply parse_rate_limit_exact in H. vm_compute in H. discriminate.
+Qed.
